@@ -143,6 +143,8 @@ func runC16(c *Ctx, r *Report) {
 	}
 	// ---- R-C16.3: every success return after the lock passes the bound test
 	r.Doc("R-C16.3", "every success return of Join reached after its lock is taken has passed the test of the size bound (the truncation cannot be skipped)")
+	r.Doc("R-C16.5", "the bounded merge computes its candidates, validates, applies and truncates in one critical section of the destination")
+	joinSingleSection(c, r, "R-C16.5", "a concurrent bounded merge truncates the log in the window and the stale difference is applied on top: the result is the tail of no serial order")
 	r.Doc("R-C16.4", "the size bound is used only in comparisons and in the truncating slice: the set of merged candidates does not depend on it")
 	sizeObj := paramObj(join, 1)
 	jf := &Flow{P: p, Fn: join, Entry: Facts{}}
